@@ -197,9 +197,38 @@ def _run(prog, cache, flags=None, cfg='arg'):
         return None, e
 
 
+CONTEXTS = ((), (), ('CALL',), ('AFTERCALL',), ('IF',), ('ELSE',), ('LOOP',),
+            ('EVAL',), ('EXCEPT',), ('CALL', 'CALL'), ('CALL', 'IF'),
+            ('LOOP', 'CALL'), ('EVAL', 'CALL'), ('AFTERCALL', 'CALL'),
+            ('CALL', 'AFTERCALL'), ('MERKLEVAL',), ('TAPROOT',))
+
+
+def in_context(word, prog: bytes) -> bytes:
+    """the time check placed inside control-flow (stack-neutral wrappers that
+    let errors through): the slack the verifier configured applies there too"""
+    from . import c09
+    for c in reversed(word):
+        if c == 'AFTERCALL':
+            # a function was defined and called earlier on the same tape
+            prog = isa_DEF_CALL() + prog
+        else:
+            prog = c09.place((c,), prog)
+    return prog
+
+
+def isa_DEF_CALL() -> bytes:
+    from ..ref import isa
+    return isa.DEF(7, isa.op('TRUE') + isa.op('POP0')) + isa.CALL(7)
+
+
 def _judge_pair(ctx, case, plain_prog, verify_prog, cache, flags, want, key):
     """plain form leaves exactly want; _VERIFY raises iff not want."""
     cfg = case.get('cfg', 'arg')
+    word = tuple(case.get('context', ()))
+    if word:
+        plain_prog = in_context(word, plain_prog)
+        verify_prog = in_context(word, verify_prog)
+        ctx.tab('context', '/'.join(word))
     st, exc = _run(plain_prog, cache, flags, cfg)
     if exc is not None or st != [b'\xff' if want else b'\x00']:
         ctx.violation(key + ('-accepts' if not want else '-rejects'),
@@ -318,6 +347,9 @@ def run_shard(spec, ctx):
         # the same case with the slack configured through functions.flags
         if case['kind'] in ('ts', 'epoch'):
             judge(dict(case, cfg='global'), ctx)
+            # ... and with the instruction inside control flow
+            judge(dict(case, context=list(CONTEXTS[n % len(CONTEXTS)]),
+                       cfg=('arg', 'global')[(n // len(CONTEXTS)) % 2]), ctx)
         else:
             judge(dict(case, lock_thr=(10, 0, 300, 61)[n % 4]), ctx)
         if n % 997 == 0:
@@ -325,9 +357,10 @@ def run_shard(spec, ctx):
         n += 1
     ctx.exhaustive('boundary grid (see rule)')
     rng = ctx.rng('random')
-    for case in gen_random(rng, NRANDOM[ctx.tier] // of):
+    for r, case in enumerate(gen_random(rng, NRANDOM[ctx.tier] // of)):
         judge(case, ctx)
         judge(dict(case, cfg='global'), ctx)
+        judge(dict(case, context=list(CONTEXTS[r % len(CONTEXTS)])), ctx)
     ctx.count('clock_reads', env.Clock.calls)
 
 
